@@ -24,6 +24,10 @@ macro_rules! corpus {
         pub const NAMES: &[&str] = &[$(stringify!($name)),*];
         /// run grammar `name` on `args` through the public API (`run_inner`)
         pub fn run_named(name: &str, args: &[OsString]) -> Option<String> {
+            if name == "g1n" {
+                // same grammar, application name set (as `run()` does from argv[0])
+                return Some(show(grammars::g1().run_inner(bpaf::Args::from(args).set_name("app"))));
+            }
             match name {
                 $(stringify!($name) => Some(show(grammars::$name().run_inner(args))),)*
                 _ => None,
